@@ -152,4 +152,60 @@ def runIters (c : PCfg α) : PState α → List (Tape α) → Option (PState α 
 /-- `run_sampling`'s epilogue: evidence at beta = 1 over the final history -/
 def finalEvidence (s : PState α) : Option α := (logw (batches s.hist) Sc.one true).2
 
+/-! ### warm-up after the repair of F8 (commit 959029e) — ADDED; nothing above is changed
+
+  `Mutator.run` at beta = 0 now draws the whole batch AGAIN while no draw has a finite likelihood:
+
+      u = rand(n, d); x = …; logl = L(x);  n_drawn = n
+      while np.all(np.isinf(logl)):   (cap 1000·n draws: ValueError)
+          u = rand(n, d); x = …; logl = L(x);  n_drawn += n
+      …
+      if np.any(inf_mask) or n_drawn > n:
+          if len(infinite_idx) > 0: idx = choice(finite_idx, size=len(infinite_idx)); copy whole records
+          logz = np.log(n_finite / n_drawn)
+
+  The tape keeps its shape: `drawTags / drawL` are the LAST block (the one that is stored); `disc = n_drawn − n` is the number of
+  discarded draws.  With `disc = 0` this is `warmup` / `iterate` (`warmupR_zero`, `iterateW_warmup` in Props/C01X.lean). -/
+
+/-- warm-up mutation when `disc` prior draws (whole batches without a finite likelihood) were discarded first -/
+def warmupR (t : Tape α) (disc : Nat) (logzRw : α) : List Nat × List (Option α) × α :=
+  let n := t.drawL.length
+  let nfin := countSome t.drawL
+  if nfin < n || 0 < disc then
+    let infIdx := (List.range n).filter fun i => !((t.drawL[i]?).join.isSome)
+    let tags := if nfin > 0 then scatterFrom t.drawTags infIdx t.picks else t.drawTags
+    let ls := if nfin > 0 then scatterFrom t.drawL infIdx t.picks else t.drawL
+    (tags, ls, ScT.log (Sc.div (Sc.ofNat nfin) (Sc.ofNat (n + disc))))
+  else (t.drawTags, t.drawL, logzRw)
+
+/-- `iterate` with the warm-up mutation as a parameter (`iterateW warmup = iterate` by definition) -/
+def iterateW (wu : Tape α → α → List Nat × List (Option α) × α) (c : PCfg α) (s : PState α) (t : Tape α) :
+    Option (PState α × IterOut α) :=
+  let hb := batches s.hist
+  let r := Reweight.run c.rw hb.isEmpty (oracleM hb) (oracleZ hb) isFin s.beta
+  let w := returnedWeights r.weightsTag
+  if Reweight.eqv r.beta Sc.zero then
+    let (tags, ls, lz) := wu t r.logz
+    (allSome ls).map fun l =>
+      ({ hist := s.hist ++ [⟨⟨r.beta, lz, l⟩, tags⟩], beta := r.beta, logz := lz, curTags := tags, curL := l },
+       ⟨r.beta, r.ess, r.logz, lz, [], [], r.branch⟩)
+  else
+    let idx? := if c.syst then
+        (match t.resU with | [u0] => systematic c.rw.nPart w u0 | _ => none)
+      else multinomial w t.resU
+    idx?.bind fun idx =>
+      (gather? (poolTags s.hist) idx).bind fun tg =>
+        (gather? (flatLogl hb) idx).map fun l =>
+          let (tg', l', ms) := mcmcSteps r.beta t.steps tg l
+          ({ hist := s.hist ++ [⟨⟨r.beta, r.logz, l'⟩, tg'⟩], beta := r.beta, logz := r.logz, curTags := tg', curL := l' },
+           ⟨r.beta, r.ess, r.logz, r.logz, idx, ms, r.branch⟩)
+
+/-- one iteration of the sampler as it is now: `disc` discarded prior draws before the stored block -/
+def iterateR (c : PCfg α) (s : PState α) (t : Tape α) (disc : Nat) : Option (PState α × IterOut α) :=
+  iterateW (fun t z => warmupR t disc z) c s t
+
+def runItersR (c : PCfg α) : PState α → List (Tape α × Nat) → Option (PState α × List (IterOut α))
+  | s, [] => some (s, [])
+  | s, (t, d) :: ts => (iterateR c s t d).bind fun (s', o) => (runItersR c s' ts).map fun (sf, os) => (sf, o :: os)
+
 end Model.Pipeline
